@@ -80,6 +80,31 @@ theorem recovered_cycle_holds (cfg : Cfg) (hf : Fixed cfg) (connected : Bool) (o
     exact cmdWrite_mem _ (zip_keys_nodup rs ws hrs) _ e he
   exact ⟨hc, hheld _ _ hc⟩
 
+/-- Full statement, part 3' (every successful write call): after any history, any `write` / `write_batch`
+    call that reached the hardware and whose hardware calls — the main call and every flush write that was
+    attempted — all succeeded leaves the buffer empty and **every** register that was ever commanded at its
+    most recently commanded value, whichever registers the call itself named. -/
+theorem successful_call_leaves_all_registers_current (cfg : Cfg) (hf : Fixed cfg) (connected : Bool)
+    (ops : List Op) (op : Op) (hnd : ∀ o ∈ ops, o.nodup) (hop : op.nodup)
+    (hw : op.isWrite = true)
+    (hc : (step cfg (runG cfg (initG connected) ops).s op).2.contact = some true)
+    (hff : (step cfg (runG cfg (initG connected) ops).s op).2.flushFail = false) :
+    (runG cfg (initG connected) (ops ++ [op])).s.pending = [] ∧
+    ∀ r v, (runG cfg (initG connected) (ops ++ [op])).cmd r = some v →
+      (runG cfg (initG connected) (ops ++ [op])).s.hw r = some v := by
+  have hg : Good (runG cfg (initG connected) (ops ++ [op])) := good_reachable cfg hf connected _ (by
+    intro o ho
+    rcases List.mem_append.mp ho with ho | ho
+    · exact hnd o ho
+    · simp only [List.mem_singleton] at ho; subst ho; exact hop)
+  have hp : (runG cfg (initG connected) (ops ++ [op])).s.pending = [] := by
+    rw [runG_snoc]; exact step_ok_pending cfg hf _ op hc hff hw
+  refine ⟨hp, ?_⟩
+  intro r v hcv
+  rcases hg.held r v hcv with h | h
+  · exact h
+  · rw [hp] at h; cases h
+
 /-! ## Non-vacuity and regression witnesses -/
 
 def B : Reg := ⟨2, .w⟩
@@ -117,5 +142,15 @@ theorem unrepaired_filter_loses_float :
     (runG repaired (initG true)
       [.writeBatch [B] [⟨.none, false⟩] Option.none [], .writeBatch [B] [⟨.num 12, true⟩] Option.none []]).s.hw 2
       = some (.num 12) := by decide
+
+/-- the hypotheses of `successful_call_leaves_all_registers_current` are satisfiable with a register
+    outside the call: B=5 is buffered by a failed cycle, a later single write to register 4 flushes it -/
+example :
+    (step repaired (runG repaired (initG true) [.writeBatch [B, C] [n 5, n 1] (some 0) []]).s
+      (.write ⟨4, .w⟩ (n 1) true [])).2.contact = some true ∧
+    (step repaired (runG repaired (initG true) [.writeBatch [B, C] [n 5, n 1] (some 0) []]).s
+      (.write ⟨4, .w⟩ (n 1) true [])).2.flushFail = false ∧
+    (runG repaired (initG true) [.writeBatch [B, C] [n 5, n 1] (some 0) [], .write ⟨4, .w⟩ (n 1) true []]).s.hw 2
+      = some (.num 40) := by decide
 
 end OPM.C24
